@@ -103,18 +103,31 @@ fn c13_fp_rad_f32(a: f32) {
     let s = Rad(a).normalize_signed().0; vassert("normalize_signed in [-T/2, T/2]", (s >= -h) & (s <= h));
     vcover("end");
 }
-// ---- rounding-error model (ERR mode): unit round trips within 4 machine epsilons, normal range
+// ---- rounding-error model (ERR mode): unit round trips within 4 machine epsilons, and no intermediate leaves the
+// normal finite range (the executor adds "every rounded intermediate is a normal finite float" to each obligation).
+// Bounds: the widest ranges on which the statement can hold for code that multiplies by 180/pi: a radian value above
+// MAX/57.3 has no finite degree measure, and below 2^-1000 (2^-110) a product may fall into the subnormals.
 fn c13_err_f64(a: f64) {
-    let (lo, hi) = (1.1830521861667747e-271, 8.452712498170644e270);        // 2^-900, 2^900
+    let (lo, hi) = (9.332636185032189e-302, 1.4044477616111843e306);        // 2^-1000, 2^1017
     vassume(((a >= lo) & (a <= hi)) | ((a <= -lo) & (a >= -hi)));
     vrel_err("Rad -> Deg -> Rad", Rad::from(Deg::from(Rad(a))).0, a, 4.0);
+    vcover("end");
+}
+fn c13_err_deg_f64(a: f64) {
+    let (lo, hi) = (9.332636185032189e-302, 8.98846567431158e307);          // 2^-1000, 2^1023
+    vassume(((a >= lo) & (a <= hi)) | ((a <= -lo) & (a >= -hi)));
     vrel_err("Deg -> Rad -> Deg", Deg::from(Rad::from(Deg(a))).0, a, 4.0);
     vcover("end");
 }
 fn c13_err_f32(a: f32) {
-    let (lo, hi) = (7.888609e-31f32, 1.2676506e30f32);                      // 2^-100, 2^100
+    let (lo, hi) = (7.70372e-34f32, 2.658456e36f32);                        // 2^-110, 2^121
     vassume(((a >= lo) & (a <= hi)) | ((a <= -lo) & (a >= -hi)));
     vrel_err("Rad -> Deg -> Rad", Rad::from(Deg::from(Rad(a))).0, a, 4.0);
+    vcover("end");
+}
+fn c13_err_deg_f32(a: f32) {
+    let (lo, hi) = (7.70372e-34f32, 1.7014118e38f32);                       // 2^-110, 2^127
+    vassume(((a >= lo) & (a <= hi)) | ((a <= -lo) & (a >= -hi)));
     vrel_err("Deg -> Rad -> Deg", Deg::from(Rad::from(Deg(a))).0, a, 4.0);
     vcover("end");
 }
